@@ -352,6 +352,21 @@ def run_case(c):
                     r[nm_ + 'c'] = [evaluate(sympy_of(x), env).ser() for x in P_.coeffs()]
                     r[nm_ + 'n'] = [evaluate(sympy_of(x), env).ser() for x in P_.normcoeffs()]
                     r[nm_] = evs(P_, env, vname, pts)
+            elif name == 'as_QMA':
+                # Ratfun.as_QMA: expression = (Q + M / A) * exp(-delay * var) * undef
+                Q, M_, A_, delay, undef = rf.as_QMA()
+                r['Q'] = poly_coeffs(Q, var, env)
+                r['M'] = poly_coeffs(M_, var, env)
+                r['A'] = poly_coeffs(A_, var, env)
+                r['delay'] = evaluate(sym.sympify(delay), env).ser()
+                r['undef'] = [ev(undef, env, vname, p).ser() for p in pts]
+            elif name == 'as_ratfun_delay':
+                # Expr.as_ratfun_delay: expression = ratfun * exp(-delay * var); raises when an undef factor is present
+                res, delay = H.as_ratfun_delay()
+                r['rvals'] = evs(res, env, vname, pts)
+                r['delay'] = evaluate(sym.sympify(delay), env).ser()
+                r['cls'] = type(res).__name__
+                r['str'] = str(res)[:200]
             elif name == 'cf_coeffs':
                 cs = H.continued_fraction_coeffs()
                 r['coeffs'] = [evs(x, env, vname, pts) for x in cs]
